@@ -88,7 +88,10 @@ impl CaoLangAllocator {
                     (*self.runtime).gc();
                 }
                 #[cfg(feature = "verif-hooks")]
-                crate::verif_hooks::event(crate::verif_hooks::AllocEvent::GcEnd);
+                {
+                    crate::verif_hooks::event(crate::verif_hooks::AllocEvent::GcEnd);
+                    crate::verif_hooks::after_gc(unsafe { &*self.runtime });
+                }
             }
             let before = allocated;
             allocated = self.allocated.load(Ordering::Relaxed);
